@@ -93,6 +93,11 @@ AtomOf(a) ==
     [] a = "w63"   -> Cls(<<48, 57, 65, 90, 95, 95, 97, 122>>, FALSE)
     [] a = "lower" -> Cls(<<97, 122>>, FALSE)
     [] a = "sdash" -> Lit(<<115, 45>>, FALSE)
+    \* characters between U+0080 and U+00FF (two bytes in UTF-8, one byte in Latin-1)
+    [] a = "lat2"  -> Cls(<<232, 233>>, FALSE)
+    [] a = "latdm" -> Cls(<<176, 176, 181, 181>>, FALSE)
+    [] a = "lat80" -> Cls(<<126, 129>>, FALSE)
+    [] a = "caf"   -> Lit(<<99, 97, 102>>, FALSE)
     [] a = "c4"    -> Cls(<<97, 100>>, FALSE)
     [] a = "c5"    -> Cls(<<97, 101>>, FALSE)
     [] a = "c10"   -> Cls(<<97, 106>>, FALSE)
@@ -241,6 +246,10 @@ Shape(s, b, x, e) ==
     [] s = "grpall" -> Un("Group", Plain(b, x, e))
     [] s = "inner"  -> Seq1(Anchor(b) \o <<Un("Capture", Plain(b, x, e))>> \o Anchor(e))
     [] s = "altun"  -> Nary("Alternate", <<Plain(b, x, e), Lit(<<113>>, FALSE)>>)
+    \* a top-level alternation of SEPARATELY anchored branches, one of them empty / a single atom ( ^x$|^$ , ^$|^x$ , ^x$|^q$ )
+    [] s = "altempty"  -> Nary("Alternate", <<Plain(b, x, e), Seq1(Anchor(b) \o Anchor(e))>>)
+    [] s = "emptyalt"  -> Nary("Alternate", <<Seq1(Anchor(b) \o Anchor(e)), Plain(b, x, e)>>)
+    [] s = "altanch"   -> Nary("Alternate", <<Plain(b, x, e), Seq1(Anchor(b) \o <<Lit(<<113>>, FALSE)>> \o Anchor(e))>>)
     [] s = "trail"  -> Seq1(Anchor(b) \o Parts("Concat", x) \o Anchor(e) \o <<Un("Quest", Lit(<<NL>>, FALSE))>>)
 
 \* what a global flag prefix does to the tree that follows it
